@@ -7,6 +7,7 @@ C15 - a displayed value or expression means the same as the source expression.
   R15.5 truncation is always marked
   R15.6 control characters keep their value (shared with C10)
   R15.7 string arguments of Literal[...] are not unstringed, whatever the qualifier of Literal
+  R15.9 an explicit (lowered) precedence is only forced onto positions where the grammar takes any expression unparenthesised
   R15.8 the plain-text rendering of a parsed value collects the text leaf by leaf, never with document.astext()
 Does not decide: precedence values (astor's table is trusted), string/number spelling, line-length arithmetic.
 """
@@ -495,6 +496,68 @@ def run(repo: Repo, chk: Check, thorough: bool = False) -> None:
            'Annotated is treated like any other subscript, every string in it is parsed as code: `Annotated[float, "meters"]` is displayed as '
            '`Annotated[float, meters]`, `Field(alias="id")` as `Field(alias=id)`', vs.loc)
     chk.require('R15.7', 2)
+
+    # ------------------------------------------------------------------ R15.9
+    # `_set_precedence(P, child)` tells the parenthesis decision that `child` sits in a delimited position, so operators down to precedence P are
+    # written bare.  That is only right where the GRAMMAR accepts a full expression without parentheses (a dict value: `{k: a or b}`); behind a star
+    # of a display it takes a `bitwise_or` only - `[*a or b]` is a syntax error, `(*a and b, c)` means something else.  Oracle: the interpreter's
+    # parser, asked with every operator class (ast.boolop / unaryop / operator, a comparison) in that position.
+    POSITION_TEMPLATES = {           # (node class, field) -> source templates with the child in that position
+        ('Dict', 'values'): ['{{k: {e}}}', '{{k: {e}, j: 1}}'],
+        ('Starred', 'value'): ['[*{e}]', '(*{e}, c)', '{{*{e}}}'],
+        ('keyword', 'value'): ['f(k={e})'],
+        ('Call', 'args'): ['f({e})', 'f({e}, 1)'],
+        ('Subscript', 'slice'): ['x[{e}]'],
+        ('List', 'elts'): ['[{e}, 1]'], ('Tuple', 'elts'): ['({e}, 1)'], ('Set', 'elts'): ['{{{e}, 1}}'],
+    }
+    def _op_samples() -> List[str]:
+        out_ = ['a or b', 'a and b', 'not a', 'a < b', 'a if b else c']
+        sym = {'Add': '+', 'Sub': '-', 'Mult': '*', 'MatMult': '@', 'Div': '/', 'Mod': '%', 'Pow': '**', 'LShift': '<<', 'RShift': '>>', 'BitOr': '|',
+               'BitXor': '^', 'BitAnd': '&', 'FloorDiv': '//'}
+        for k in ast.operator.__subclasses__():
+            if k.__name__ in sym:
+                out_.append(f'a {sym[k.__name__]} b')
+        out_ += ['-a', '+a', '~a']
+        return out_
+    def _same_child(tmpl: str, e: str) -> bool:
+        try:
+            got = ast.parse(tmpl.format(e=e), mode='eval')
+            want = ast.parse(tmpl.format(e='(' + e + ')'), mode='eval')
+        except SyntaxError:
+            return False
+        return ast.dump(got) == ast.dump(want)
+    n159 = 0
+    for f in sorted((g for g in repo.funcs.values() if g.cls is not None and g.cls.qn == COL), key=lambda g: g.qn):
+        cf9 = None
+        for c in calls_in(f):
+            if call_name(c) != '_set_precedence' or len(c.args) < 2 or norm(c.args[0]).endswith('highest'):
+                continue
+            for child in c.args[1:]:
+                n159 += 1
+                pos = None
+                if isinstance(child, ast.Attribute) and isinstance(child.value, ast.Name):
+                    cf9 = cf9 or CFG(f)
+                    for t, pol in cf9.dominating_tests(cf9.stmt_of(c)):
+                        if pol and isinstance(t, ast.Call) and call_name(t) == 'isinstance' and len(t.args) == 2 and norm(t.args[0]) == child.value.id and \
+                                isinstance(t.args[1], ast.Attribute):
+                            pos = (t.args[1].attr, child.attr)
+                elif isinstance(child, ast.Name) and 'dict' in f.name:
+                    # the (key, value) pairs handed to the dict renderer: zip(node.keys, node.values)
+                    lp = [n for n in f.walk() if isinstance(n, ast.For) and any(isinstance(x, ast.Name) and x.id == child.id for x in ast.walk(n.target))]
+                    if lp:
+                        tg = [x for x in ast.walk(lp[0].target) if isinstance(x, ast.Tuple) and any(isinstance(e_, ast.Name) and e_.id == child.id for e_ in x.elts)]
+                        if tg and [isinstance(e_, ast.Name) and e_.id == child.id for e_ in tg[0].elts].index(True) == 1:
+                            pos = ('Dict', 'values')
+                if pos is None or pos not in POSITION_TEMPLATES:
+                    raise AnalysisError(f'R15.9: cannot tell the syntactic position of `{norm(child)}` in {f.qn} (`{norm(c)[:60]}`): re-confirm by reading')
+                badp = [(tm, e) for tm in POSITION_TEMPLATES[pos] for e in _op_samples() if not _same_child(tm, e)]
+                chk.ob('R15.9', f'{f.qn} :: a lowered precedence is forced onto ast.{pos[0]}.{pos[1]} only if that position takes any expression bare', not badp,
+                       f'{len(POSITION_TEMPLATES[pos]) * len(_op_samples())} operator/position combinations read back as the same tree without parentheses' if not badp else
+                       f'`{badp[0][0].format(e=badp[0][1])}` does not read back as `{badp[0][0].format(e="(" + badp[0][1] + ")")}` ({len(badp)} such combinations): the '
+                       'displayed expression is a syntax error or a different expression', repo.loc(f.mod, c))
+    if n159 < 1:
+        raise AnalysisError('R15.9: no _set_precedence site with a lowered precedence found (1 confirmed: dict values)')
+    chk.require('R15.9', 1)
 
     # ------------------------------------------------------------------ R15.8
     # the secondary (plain text) rendering of a colorized value shows the text of the whole document ParsedDocstring.to_node() returns.  docutils'
